@@ -38,7 +38,7 @@ Definition c18_cfg : config :=
                    stop_style := StopUntilRunDone; run_exit := ExitOnSignal; held_sub := false |} ];
      startup_may_fire := false; shutdown_may_fire := false |}.
 Definition c18_sched : list label :=
-  [LLaunch 0; LRunCall 0; LMonSub 0; LMonRecv 0; LPoll 0 true; LGateDecide 0;
+  [LLaunch 0; LRunStore 0; LRunCall 0; LMonSub 0; LMonRecv 0; LPoll 0 true; LGateDecide 0;
    LCall 1 (OpSignal SigHup); LSigPut 1; LRet 1 (OpSignal SigHup); LReapSig; LRmAccept SndHup;
    LReloadCall 0; LReloadRet 0;
    LTrigS 0; LTrigRecvS 0; LStopCall 0; LRunRet 0 None; LStopRet 0; LSdCancel;
